@@ -20,6 +20,32 @@ CHECKS = {
              "evaluation (plus seeded random larger worlds with batches) is validated event by event against the "
              "specification. Exhaustive for the bounded worlds, sampling judged by the model beyond.",
         design_ref="6 (C01)"),
+    "C03": dict(
+        technique="TLA+ specification (RuleSem!Realised/MissingEdge/MissingOther) with TLC; messages of real failing "
+                  "evaluations and the three graph queries parsed and validated as sets against the specification",
+        text="Every failing evaluation's message is parsed with a grammar written from LANGUAGE_DEFINTION.md into the "
+             "sets of reported imports and missing-import lines; the trace specification compares them, in both "
+             "directions of inclusion, with the violating sets the specification derives, for every import relation "
+             "of a bounded world x the full single rule space and for seeded random larger worlds with batches; the "
+             "get_dependencies / any_dependencies... queries are validated directly against EdgeSet/OtherSet.",
+        design_ref="6 (C03)"),
+    "C11": dict(
+        technique="TLA+ trace specification with TLC: compact (regex / partial-name / batch) and expanded rules are "
+                  "evaluated on the real code and related by law events; conjunction laws model-checked on RuleSem",
+        text="Batch = conjunction is an invariant of the specification over every import relation of the bounded "
+             "world (TLC). On the real code each compact rule and its expansion (match set computed with re.match) are "
+             "both evaluated and the trace specification requires equal verdicts and messages, an error for empty "
+             "matches, and the conjunction laws on the recorded verdicts.",
+        design_ref="6 (C11)"),
+    "C12": dict(
+        technique="TLC model checking of the law invariants and the monotonicity action property on RuleSem; the "
+                  "model's transition graph replayed into the real code; laws evaluated by TLC on recorded real verdicts",
+        text="Duality, negation, decomposition, the anything alias and batch conjunction are INVARIANTs, monotonicity a "
+             "[][..]_vars PROPERTY, checked by TLC on every state and transition of the bounded model for the whole rule "
+             "space (related modules included). Every state and single-edge addition TLC emits is replayed into real "
+             "architectures; the trace specification re-derives which evaluated rules are partners and checks each law "
+             "on the verdicts the real code returned.",
+        design_ref="6 (C12)"),
 }
 
 PENDING = {}
